@@ -226,3 +226,49 @@ def git_head(path):
         return subprocess.run(["git", "-C", path, "rev-parse", "HEAD"], stdout=subprocess.PIPE, text=True).stdout.strip()
     except Exception:
         return "?"
+
+
+# ----------------------------------------------------------------------------------------------
+# the same object after the nn.Module protocol has been applied to it
+# ----------------------------------------------------------------------------------------------
+def module_forms(obj, mk=None, kinds=("deepcopy", "pickle", "state_dict", "eval", "double")):
+    """Variants of a constructed component that must behave like it: a deep copy, a pickle round trip, a fresh object loaded with its
+    state_dict (needs mk, the constructor), the object in eval mode, the object converted with .double().  A form the object does not
+    support (it cannot be pickled, has no state, ...) is left out; forms never modify `obj` itself."""
+    import copy
+    import io
+    import pickle
+    out = []
+    for kind in kinds:
+        try:
+            if kind == "deepcopy":
+                v = copy.deepcopy(obj)
+            elif kind == "pickle":
+                v = pickle.loads(pickle.dumps(obj))
+            elif kind == "state_dict":
+                if mk is None or not hasattr(obj, "state_dict"):
+                    continue
+                v = mk()
+                buf = io.BytesIO()
+                import torch
+                torch.save(obj.state_dict(), buf)
+                buf.seek(0)
+                v.load_state_dict(torch.load(buf))
+            elif kind == "eval":
+                v = copy.deepcopy(obj)
+                v.eval()
+            elif kind == "double":
+                v = copy.deepcopy(obj)
+                v.double()
+            else:
+                continue
+        except Exception:
+            continue
+        out.append((kind, v))
+    return out
+
+
+def call_contexts():
+    """Calling contexts in which a component must give the same answer as in a plain call."""
+    import torch
+    return [("no_grad", torch.no_grad), ("inference_mode", torch.inference_mode)]
